@@ -120,7 +120,6 @@ func illFormed(op Op) bool {
 	return false
 }
 
-
 // ApplyModel runs op on the model for a caller holding rules (nil rules =
 // superuser with every permission).
 func ApplyModel(m *refmodel.Model, rules []refmodel.Rule, super bool, op Op) Result {
